@@ -63,6 +63,8 @@ def asm_args(cfg, path):
     for k, d in ASM_DEFAULT.items():
         if cfg.get(k, d) != d:
             a += ['-P', '{}={}'.format(k.replace('_', '-'), cfg[k])]
+    if 'bullet' in cfg:
+        a += ['-P', 'bullet={}'.format(cfg['bullet'])]
     return a + [path]
 
 
@@ -91,6 +93,8 @@ def cfg_tag(cfg, default):
     for k in default:
         if cfg.get(k, default[k]) != default[k]:
             parts.append('{}={}'.format(k, cfg[k]))
+    if 'bullet' in cfg:
+        parts.append('bullet={!r}'.format(cfg['bullet']))
     return ','.join(parts)
 
 
@@ -262,6 +266,55 @@ def span_cell_lines(e, line_width, min_col):
     return None
 
 
+# ---- family U: #LIST items of every length under every bullet setting
+BULLET_PROPS = (None, '', '+', '--', '-->')     # the writer's `bullet` property (None: not set, i.e. '*'); lengths 1, 0, 1, 2, 3
+BULLET_PARAMS = (None, '+', '--', '-->')        # the list's own bullet parameter (None: not given); lengths -, 1, 2, 3
+
+
+def entry_bullet(style, length, param, pos, salt):
+    """A two-item list (items of `length` and length // 2 characters) with the bullet parameter `param` at `pos`."""
+    it = M.sentence(length, style, salt)
+    it2 = M.sentence(max(length // 2, 1), 'dense', salt + 1)
+    blk = ('L', (tuple(it), tuple(it2)), param)
+    return entry_with_block(blk, {'block': 'L2', 'L': length, 'style': style, 'bullet': param}, BLOCK_CTX[length % 4], pos, salt)
+
+
+def bullet_positions(length, npos):
+    """npos of the 7 block positions, rotating with the item length (npos = 7: all of them)."""
+    n = len(BLOCK_POS)
+    step = n // npos
+    return [BLOCK_POS[(length + k * step) % n] for k in range(npos)] if npos < n else list(BLOCK_POS)
+
+
+# ---- family P: register sections with every kind of prefix
+# "If a register's prefix begins with the letter 'O', it is regarded as an output value; if it begins with any other
+# letter, it is regarded as an input value. If a register has no prefix, it will be placed in the same table as the
+# previous register; if there is no previous register, ... input values."
+PREFIX_ALPHABET = ('', 'I', 'Output', 'o', 'Entry', 'r')
+PREFIX_LETTERS = 'ABCDEFGHIJKLMNOPQRSTUVWXYZabcdefghijklmnopqrstuvwxyz'
+PREFIX_NAMES = {'plain': ('A', 'BC', 'HL', 'DE'), 'delim': ('B, D', 'IX+1', 'H, L', 'SP')}
+
+
+def prefix_sections(k):
+    """Every sequence of 1..k prefixes over PREFIX_ALPHABET; then every letter as the first letter of a prefix (alone
+    and followed by more letters), each followed by a register without a prefix."""
+    for n in range(1, k + 1):
+        for seq in itertools.product(PREFIX_ALPHABET, repeat=n):
+            yield seq
+    for ch in PREFIX_LETTERS:
+        yield (ch, '')
+        yield (ch + 'xy', '')
+
+
+def entry_prefixes(seq, form, salt):
+    regs = []
+    for i, prefix in enumerate(seq):
+        style = 'delim' if form == 'delim' else ('prefixed' if prefix else 'plain')
+        regs.append((style, prefix, PREFIX_NAMES[form][i], M.sentence(10 + 7 * i, 'dense', salt + i)))
+    g = M.Group((3,), ['a'])
+    return M.Entry({'prefixes': list(seq), 'form': form}, ['a', 'bb'], desc=[['bb', 'a']], regs=regs, groups=[g])
+
+
 # ----------------------------------------------------------------------------- document keys
 W_LENGTHS = (0, 1, 9, 20, 33, 45, 77, 100, 150, 236, 330)
 CHUNK = 48
@@ -311,6 +364,15 @@ def doc_entries(key, seed, seam, stats=None):
                     for ctx in SPAN_CTX:
                         for pos in SPAN_POS:
                             ents.append(entry_span(rs, length, style, ctx, pos, salt))
+    elif fam == 'U':
+        for length in range(key['lo'], key['hi']):
+            for param in BULLET_PARAMS:
+                for pos in bullet_positions(length + seed, key['npos']):
+                    ents.append(entry_bullet(key['style'], length, param, pos, salt))
+    elif fam == 'P':
+        for seq in prefix_sections(key['k']):
+            for form in ('plain', 'delim'):
+                ents.append(entry_prefixes(seq, form, salt))
     else:
         raise ValueError(fam)
     lo = key.get('chunk', 0) * CHUNK if 'chunk' in key else 0
@@ -372,6 +434,21 @@ def check_asm(ents, cfg, res, counters=None):
     ind_chars = 1 if tab else indent
     iw = cfg.get('instruction_width', 23)
     cwmin = cfg.get('comment_width_min', 10)
+    bprop = cfg.get('bullet', M.BULLET)        # the writer's bullet property
+
+    def flat(tokens):
+        return M.flat_tokens(tokens, 'asm', bprop)
+
+    def entry_bullets(e):
+        # the non-empty bullets the lists of this entry are written with (fixed prefixes of list item lines)
+        anns = [e.title] + e.desc + [r[3] for r in e.regs] + e.end
+        for g in e.groups:
+            anns += g.mid + [g.comment]
+        out = set()
+        for a in anns:
+            out |= M.bullets_in(a, bprop)
+        return out
+
     out_entries, rp = M.read_asm(res.out, cfg.get('crlf', 0), indent, tab)
     for p in rp:
         probs.append(Prob(None, 'output', 'format', p))
@@ -395,7 +472,7 @@ def check_asm(ents, cfg, res, counters=None):
             text = ln.text or ''
         toks = text.split()
         ntext = len(toks)
-        if toks[:1] == [M.BULLET]:
+        if toks[:1] and toks[0] in bullets[0]:
             ntext -= 1
         table = M.is_table_line(text)
         excusable = table or ntext <= 1 or n <= limit2
@@ -431,21 +508,23 @@ def check_asm(ents, cfg, res, counters=None):
             probs.append(Prob(ei, 'regs', 'words', 'expected registers {} but found {} register lines: {!r}'.format(fields, len(per), [l.raw for l in blk][:8])))
             return
         for k, (r, grp) in enumerate(zip(e.regs, per)):
-            _cmp_tokens(probs, ei, 'regs[{}]'.format(k), M.flat_tokens(r[3], 'asm'), M.asm_tokens([t for l, t in grp]))
+            _cmp_tokens(probs, ei, 'regs[{}]'.format(k), flat(r[3]), M.asm_tokens([t for l, t in grp]))
             for l, t in grp:
                 width_check(ei, e, 'regs[{}]'.format(k), l, text=t)
 
+    bullets = [set()]
     for ei, (e, lines) in enumerate(zip(ents, out_entries)):
+        bullets[0] = entry_bullets(e)
         i = 0
         while i < len(lines) and lines[i].kind == 'c':
             i += 1
         header = lines[:i]
         # ---- header blocks
-        want = [('title', M.flat_tokens(e.title, 'asm'))]
-        want += [('desc[{}]'.format(k), M.flat_tokens(p, 'asm')) for k, p in enumerate(e.desc)]
+        want = [('title', flat(e.title))]
+        want += [('desc[{}]'.format(k), flat(p)) for k, p in enumerate(e.desc)]
         if e.regs:
             want.append(('regs', None))         # compared register by register in check_regs
-        want += [('start[{}]'.format(k), M.flat_tokens(p, 'asm')) for k, p in enumerate(e.groups[0].mid)]
+        want += [('start[{}]'.format(k), flat(p)) for k, p in enumerate(e.groups[0].mid)]
         hb = []     # blocks of AsmLines
         cur = []
         for ln in header:
@@ -475,7 +554,7 @@ def check_asm(ents, cfg, res, counters=None):
                 cl.append(lines[i])
                 i += 1
             if gi > 0:
-                wantp = [M.flat_tokens(p, 'asm') for p in g.mid]
+                wantp = [flat(p) for p in g.mid]
                 gotp = [M.asm_tokens(b) for b in M.split_comment_blocks(cl)] if cl else []
                 if len(wantp) != len(gotp):
                     probs.append(Prob(ei, 'mid[{}]'.format(gi), 'paragraphs', 'expected {} mid-block paragraphs, got {}: {!r}'.format(
@@ -505,7 +584,7 @@ def check_asm(ents, cfg, res, counters=None):
                     i += 1
             if bad:
                 break
-            _cmp_tokens(probs, ei, pos + '.comment', M.flat_tokens(g.comment, 'asm'), M.asm_tokens(texts))
+            _cmp_tokens(probs, ei, pos + '.comment', flat(g.comment), M.asm_tokens(texts))
             gw = max([iw] + list(g.oplens))
             limit2 = ind_chars + gw + 3 + cwmin
             for l in glines:
@@ -521,7 +600,7 @@ def check_asm(ents, cfg, res, counters=None):
             if any(l.kind != 'c' for l in cl):
                 probs.append(Prob(ei, 'end', 'instruction', 'unexpected instruction lines after the last group: {!r}'.format([l.raw for l in cl if l.kind != 'c'][:4])))
             else:
-                wantp = [M.flat_tokens(p, 'asm') for p in e.end]
+                wantp = [flat(p) for p in e.end]
                 gotp = [M.asm_tokens(b) for b in M.split_comment_blocks(cl)] if cl else []
                 if len(wantp) != len(gotp):
                     probs.append(Prob(ei, 'end', 'paragraphs', 'expected {} end-comment paragraphs, got {}: {!r}'.format(len(wantp), len(gotp), [l.raw for l in cl][:8])))
@@ -779,6 +858,26 @@ def work_list(tier, seed):
             if all(cfg[k] == ASM_DEFAULT[k] for k in ('tab', 'crlf', 'indent', 'instruction_width', 'comment_width_min')):
                 work.append(('asm', key, cfg))
         work.append(('html', key, {}))
+    # P: register prefixes
+    for key in chunked({'fam': 'P', 'k': 3 if quick else 4}, seed, 'asm'):
+        for w in WIDTHS3:
+            work.append(('asm', key, dict(ASM_DEFAULT, line_width=w)))
+            work.append(('ctl', key, dict(CTL_DEFAULT, line_width=w)))
+        work.append(('html', key, {}))
+    # U: list bullets x item length sweep
+    npos = 2 if quick else 7
+    for w in WIDTHS3:
+        top = 2 * (w - 2) + 2
+        for style in (('dense',) if quick else ('dense', 'mixed')):
+            for lo in range(1, top, 6):
+                key = {'fam': 'U', 'style': style, 'lo': lo, 'hi': min(lo + 6, top), 'npos': npos}
+                for prop in BULLET_PROPS:
+                    cfg = dict(ASM_DEFAULT, line_width=w)
+                    if prop is not None:
+                        cfg['bullet'] = prop
+                    work.append(('asm', key, cfg))
+    for lo in range(1, 113 if quick else 241, 16):
+        work.append(('html', {'fam': 'U', 'style': 'dense', 'lo': lo, 'hi': lo + 16, 'npos': 1 if quick else 7}, {}))
     # L: length sweep
     mod = 6 if quick else 2
     for w in WIDTHS3:
@@ -819,7 +918,7 @@ def _pos_name(pos):
 def _tags(seam, cfg, e, p):
     t = {'seam': seam, 'kind': p.kind, 'position': _pos_name(p.pos), 'line_width': cfg.get('line_width')}
     if e is not None:
-        for k in ('style', 'L', 'layout', 'n', 'block', 'pos', 'ctx', 'brace_text', 'brace_form'):
+        for k in ('style', 'L', 'layout', 'n', 'block', 'pos', 'ctx', 'brace_text', 'brace_form', 'bullet', 'prefixes', 'form'):
             if k in e.tag:
                 t[k] = e.tag[k]
     for k, v in cfg.items():
@@ -845,6 +944,22 @@ def _shard(shard, nshards, tier, seed):
                 rs, nl = span_cell_lines(e, cfg['line_width'], cfg.get('wrap_column_width_min', 10))
                 d = nl - rs
                 stats.counters['rowspan_cell_lines_' + ('below_rowspan' if d < 0 else 'rowspan_plus_%d' % d if d <= 2 else 'rowspan_plus_3_or_more')] += 1
+            if key['fam'] == 'U' and seam == 'asm':
+                b = e.tag['bullet'] if e.tag['bullet'] is not None else cfg.get('bullet', M.BULLET)
+                stats.counters['list_bullet_of_%d_characters' % len(b)] += 1
+                stats.counters['list_bullet_from_' + ('parameter' if e.tag['bullet'] is not None else 'property' if 'bullet' in cfg else 'default')] += 1
+                if e.tag['L'] + len(b) + 1 > cfg['line_width'] - 2:
+                    stats.counters['list_item_longer_than_line_bullet_of_%d_characters' % len(b)] += 1
+            if key['fam'] == 'P':
+                cur = ''
+                for pfx in e.tag['prefixes']:
+                    if pfx and pfx[0] not in 'IiOo':
+                        stats.counters[seam + '_register_prefix_other_letter'] += 1
+                    elif not pfx and cur and cur[0] not in 'IiOo':
+                        stats.counters[seam + '_register_without_prefix_after_other_letter'] += 1
+                    elif pfx and pfx[0] in 'Oo':
+                        stats.counters[seam + '_register_prefix_output'] += 1
+                    cur = pfx or cur
             stats.state((seam, ctag, key['fam'], repr(sorted(e.tag.items()))))
             if len(e.groups[0].oplens) > 1 or any(M.is_block(t) for g in e.groups for t in g.comment) or e.tag.get('L', 0) >= cfg.get('line_width', 79) - 30:
                 stats.nontriv((seam, ctag, repr(sorted(e.tag.items()))))
@@ -956,6 +1071,13 @@ def run(tier, seed):
                          'group_comment_with_braces', 'brace_text_needs_extra_opening_braces', 'fam_W_asm', 'fam_W_ctl', 'fam_L_asm', 'fam_L_ctl',
                          'asm_word_longer_than_comment_field', 'ctl_word_longer_than_comment_field', 'asm_operation_wider_than_line',
                          'asm_comment_ends_with_brace_in_group', 'ctl_comment_ends_with_brace_in_group', 'html_group_gt1', 'html_block_in_comment',
+                         'fam_P_asm', 'fam_P_ctl', 'fam_P_html', 'fam_U_asm', 'fam_U_html',
+                         'html_register_prefix_other_letter', 'html_register_without_prefix_after_other_letter', 'html_register_prefix_output',
+                         'asm_register_prefix_other_letter', 'ctl_register_prefix_other_letter',
+                         'list_bullet_of_0_characters', 'list_bullet_of_1_characters', 'list_bullet_of_2_characters', 'list_bullet_of_3_characters',
+                         'list_bullet_from_parameter', 'list_bullet_from_property', 'list_bullet_from_default',
+                         'list_item_longer_than_line_bullet_of_0_characters', 'list_item_longer_than_line_bullet_of_1_characters',
+                         'list_item_longer_than_line_bullet_of_2_characters', 'list_item_longer_than_line_bullet_of_3_characters',
                          'fam_B_asm', 'fam_B_ctl', 'fam_B_html', 'fam_K_asm', 'fam_K_html', 'fam_N_asm', 'fam_H_html', 'fam_R_asm', 'fam_R_html',
                          'rowspan_cell_lines_below_rowspan', 'rowspan_cell_lines_rowspan_plus_0', 'rowspan_cell_lines_rowspan_plus_1',
                          'rowspan_cell_lines_rowspan_plus_2', 'rowspan_cell_lines_rowspan_plus_3_or_more'],
